@@ -56,6 +56,12 @@ type Case struct {
 	// PlainStore: the content store keeps no labels (containerd's plain local store, as the repository's own
 	// converter tests use it): conversion works all the same, only the label cannot be looked at
 	PlainStore bool `json:"plain_store,omitempty"`
+	// Again: after everything was converted and checked, the converted blobs lose their labels (a node that pulled
+	// the converted image without unpacking it) and every layer is converted a second time: the blobs already exist
+	Again bool `json:"again,omitempty"`
+	// SharedOpts (zstd:chunked without per-layer options): all layers go through one converter function built
+	// from one option slice that has spare capacity
+	SharedOpts bool `json:"shared_opts,omitempty"`
 }
 
 func gen(t *rapid.T) Case {
@@ -87,6 +93,8 @@ func gen(t *rapid.T) Case {
 	}
 	c.Parallel = rapid.Bool().Draw(t, "parallel")
 	c.PlainStore = rapid.IntRange(0, 4).Draw(t, "plainstore") == 0
+	c.Again = rapid.IntRange(0, 3).Draw(t, "again") == 0
+	c.SharedOpts = rapid.Bool().Draw(t, "sharedopts")
 	c.Retry = rapid.IntRange(0, 3).Draw(t, "retry") == 0
 	if c.Retry {
 		c.RetryAfter = rapid.SampledFrom([]int{-1, 0, 1, 10, 100, 100, 700, 700, 3000}).Draw(t, "retryafter")
@@ -215,7 +223,8 @@ func run(c Case, ev *pbt.Ev) error {
 		return pbt.Inconclusive("%v", err)
 	}
 	defer os.RemoveAll(dir)
-	cs, err := local.NewLabeledStore(dir, newMemLabels())
+	ml := newMemLabels()
+	cs, err := local.NewLabeledStore(dir, ml)
 	if c.PlainStore {
 		cs, err = local.NewStore(dir)
 		ev.Class("store-without-labels")
@@ -284,6 +293,11 @@ func run(c Case, ev *pbt.Ev) error {
 		conv = zstdconv.LayerConvertWithLayerOptsFuncWithCompressionLevel(zstd.EncoderLevel(c.Level), opts)
 		if len(perLayer) == 0 && c.ChunkSize == 0 {
 			conv = zstdconv.LayerConvertFuncWithCompressionLevel(zstd.EncoderLevel(c.Level))
+		} else if len(perLayer) == 0 && c.SharedOpts {
+			shared := make([]estargz.Option, 0, 8)
+			shared = append(shared, common...)
+			conv = zstdconv.LayerConvertFuncWithCompressionLevel(zstd.EncoderLevel(c.Level), shared...)
+			ev.Class("zstd-one-converter-shared-options")
 		}
 	case "externaltoc":
 		conv, finalize = exttocconv.LayerConvertWithLayerAndCommonOptsFunc(perLayer, common, c.Level)
@@ -456,6 +470,34 @@ func run(c Case, ev *pbt.Ev) error {
 	ev.Class("converter-" + c.Converter)
 	ev.ClassIf(c.Parallel && len(c.Layers) >= 2, "parallel-layers")
 	ev.ClassIf(nonGzip, "zstd-or-uncompressed-source")
+	if c.Again && !c.PlainStore {
+		for d := range converted {
+			ml.Set(d, map[string]string{})
+		}
+		for i := range srcs {
+			if results[i] == nil || errs[i] != nil {
+				continue
+			}
+			first := results[i]
+			d2, err := conv(ctx, cs, srcs[i].desc)
+			if err != nil || d2 == nil {
+				return pbt.Violf("conversion-failed", "layer %d: converting it a second time (the converted blob already exists): %v", i, err)
+			}
+			if d2.Digest != first.Digest {
+				continue // not reproducible output: a new blob, nothing to compare
+			}
+			blob, _ := readBlob(ctx, cs, d2.Digest)
+			dec, _, _ := decompressAny(blob)
+			info, err := cs.Info(ctx, d2.Digest)
+			if err != nil {
+				return pbt.Violf("blob-missing", "layer %d (second conversion): %v", i, err)
+			}
+			if got := info.Labels["containerd.io/uncompressed"]; got != esgzref.Sha256(dec) {
+				return pbt.Violf("diffid-label", "layer %d: converted again while the blob already existed without labels: content label containerd.io/uncompressed = %q, sha256 of the decompressed blob is %s", i, got, esgzref.Sha256(dec))
+			}
+			ev.Class("converted-again-onto-existing-blob")
+		}
+	}
 	ev.ClassIf(c.Retry, "interrupted-and-retried")
 	ev.ClassIf(interrupted.Load() > 0, "retried-after-partial-ingest")
 	ev.NTIf((c.Parallel && len(c.Layers) >= 2) || nonGzip || c.Retry)
